@@ -161,13 +161,44 @@ func writeValue(w ion.Writer, v *model.Value, o *WriteOpts, inStruct bool) error
 				}
 			}
 		} else {
-			toks := make([]ion.SymbolToken, len(v.Ann))
-			for i, a := range v.Ann {
+			// The slice handed to Annotations is the caller's: it may have spare capacity that holds
+			// the caller's other tokens, the rest may follow through Annotation, and the caller may
+			// recycle the slice as soon as the call has returned.
+			mode := 0
+			if o.Rnd != nil {
+				mode = o.Rnd.Intn(4)
+			}
+			split := len(v.Ann)
+			if mode == 1 && len(v.Ann) > 1 {
+				split = 1 + o.Rnd.Intn(len(v.Ann)-1)
+			}
+			private := "private_to_the_caller"
+			toks := make([]ion.SymbolToken, len(v.Ann)+3)
+			for i := range toks {
+				toks[i] = ion.SymbolToken{Text: &private, LocalSID: ion.SymbolIDUnknown}
+			}
+			for i, a := range v.Ann[:split] {
 				toks[i] = Tok(a)
 			}
-			logCall(o, fmt.Sprintf("Annotations(%v)", v.Ann))
-			if err := w.Annotations(toks...); err != nil {
+			logCall(o, fmt.Sprintf("Annotations(%v) [mode %d, first %d]", v.Ann, mode, split))
+			if err := w.Annotations(toks[:split]...); err != nil {
 				return wrap("Annotations", err)
+			}
+			for i := split; i < len(v.Ann); i++ {
+				if err := w.Annotation(Tok(v.Ann[i])); err != nil {
+					return wrap("Annotation", err)
+				}
+			}
+			for i := split; i < len(toks); i++ {
+				if toks[i].Text != &private {
+					return &WriteError{"Annotations", fmt.Errorf("the Writer wrote into the caller's slice behind the %d tokens it was given", split)}
+				}
+			}
+			if mode >= 2 {
+				junk := "recycled_by_the_caller"
+				for i := range toks[:cap(toks)] {
+					toks[:cap(toks)][i] = ion.SymbolToken{Text: &junk, LocalSID: ion.SymbolIDUnknown}
+				}
 			}
 		}
 	}
@@ -291,6 +322,12 @@ func writeInt(w ion.Writer, n *big.Int, o *WriteOpts) error {
 		return wrap("WriteUint", w.WriteUint(n.Uint64()))
 	default:
 		logCall(o, "WriteBigInt("+n.String()+")")
-		return wrap("WriteBigInt", w.WriteBigInt(new(big.Int).Set(n)))
+		// the number is the caller's: a counter or running total is changed in place as soon as
+		// the call has returned
+		own := new(big.Int).Set(n)
+		err := w.WriteBigInt(own)
+		own.Add(own, big.NewInt(1))
+		own.Lsh(own, 3)
+		return wrap("WriteBigInt", err)
 	}
 }
